@@ -114,6 +114,13 @@ def handle (j : Json) : Except String Json := do
       ("field_slice_counts", ← specOn impl "field_slice_counts" false countsF
         (Spec.C13.countsSpec (fun (m : Metadata) => (t.filter (·.md == m)).flatMap (·.values.keys))
           (t.map (·.md)).eraseDups (t.flatMap (·.values.keys)))),
+      ("num_samples", match impl.getObjVal? "num_samples" with
+        | .ok v => match v.getObjVal? "ok" with
+          | .ok x => match x.getNat? with
+            | .ok n => Json.bool (Spec.C13.numSamplesSpec t (some n))
+            | .error _ => Json.null
+          | .error _ => Json.bool (Spec.C13.numSamplesSpec t none)
+        | .error _ => Json.null),
       ("experience_gaps", ← specOn impl "experience_gaps" false (listF periodF)
         (fun out => !Spec.C13.disjoint t || Spec.C13.gapsSpec t out)),
       ("common_metadata", ← specOn impl "common_metadata" true Metadata.fromJson
